@@ -32,7 +32,9 @@ RULE = ("exhaustive: every grid shape w,h,d <= 3 (quick) / <= 5 (thorough) x all
         "cell, every ordered pair of cells, every linear index in [-size-2, 2*size+2], every coordinate triple in "
         "[-1,w]x[-1,h]x[-1,d] as tuple and as object (list / ndarray / numpy integer on a subset); one engine Euler step per "
         "cell; one kinetics derivative per cell and chunk; grid_to_graph of every grid; random systems for grid-vs-graph "
-        "trajectories / rate law.  A case is non-trivial when the grid has more than one cell; distinct by "
+        "trajectories / rate law; re-use: ONE grid object per shape taken through all 8 settings (twice) with "
+        "set_boundary_conditions; stochastic engines: Gillespie per-event moves (uniform state, 30 events per face) and tau-leap "
+        "one-hot steps on a 3-species network with D = 1, 0, 0.25.  A case is non-trivial when the grid has more than one cell; distinct by "
         "(shape, setting, kind, cell or pair)")
 ASSUMPTIONS = [
     "indices and sizes stay below 2^53 (Python computes y and z of get_cell_coordinates through float division) and below 2^31 (C++ int)",
@@ -932,9 +934,9 @@ def run(ctx, maxn=None, batch=120):
             k += m
         del recs[:]
 
-    # the Python kinetics derivative costs ~6 ms per cell: observed for all 8 settings on grids up to `full` cells, for
+    # the Python kinetics derivative costs ~6 ms per cell: observed for all 8 settings on grids up to `full` cells (quick: 8), for
     # 2 of the 8 settings (chosen per shape from the seed) up to `part` cells, for 1 beyond
-    full, part = ctx.n(9, 27), ctx.n(27, 64)
+    full, part = ctx.n(8, 27), ctx.n(27, 64)
     pick = {}
     engs = {"gillespie": common.load_engine("gillespie"), "tauleap": common.load_engine("tauleap")}
     for w, h, d, per in all_grids(maxn):
@@ -1026,9 +1028,17 @@ def replay(ctx, rec):
         ok, detail = eval_grid_vs_graph(eng, case["desc"], case.get("kinetics", False))
         return ok, {"case": case, "result": detail}
     sink = _Sink(ctx)
-    eng = common.load_engine("euler")
+    sink.seed = ctx.seed
     w, h, d, per = case["w"], case["h"], case["d"], tuple(case["periodic"])
-    check_grid(sink, eng, w, h, d, per, do_kin=(w * h * d <= 30))
+    if case.get("kind") == "reuse":
+        for _ in range(3):
+            check_reuse(sink, w, h, d)
+    elif case.get("kind") in ("gillespie", "tauleap"):
+        engs = {"gillespie": common.load_engine("gillespie"), "tauleap": common.load_engine("tauleap")}
+        check_stochastic(sink, engs, w, h, d, per, hots=list(range(w * h * d)))
+    else:
+        eng = common.load_engine("euler")
+        check_grid(sink, eng, w, h, d, per, do_kin=(w * h * d <= 30))
     key = rec.get("key")
     same = [v for v in sink.violations if key is None or v["key"] == key]
     return not same, {"case": case, "failures_on_this_grid": [{"key": v["key"], "what": v["what"], "case": v["case"]} for v in (same or sink.violations)[:5]]}
